@@ -115,6 +115,11 @@ struct HintHop {
 	cltv: u16,
 	min: Option<u64>,
 	max: Option<u64>,
+	/// (first hop of a hint only) the hint describes one of the payer's own first-hop channels, named by that
+	/// channel's real short_channel_id (as the payer's peer would put it into an invoice): the source is the payer
+	/// and the next node is that first hop's peer
+	#[serde(default)]
+	own: Option<u16>,
 }
 
 #[derive(Clone, Debug, Serialize, Deserialize)]
@@ -293,8 +298,8 @@ fn hint_strat(scale: u64) -> SBoxedStrategy<Vec<HintHop>> {
 	let sm = scale.saturating_mul(1000);
 	let min = prop_oneof![4 => Just(None), 2 => Just(Some(0u64)), 2 => (1..=1000u64).prop_map(Some), 1 => (1..=8u64).prop_map(move |k| Some(sm / 8 * k))];
 	let max = prop_oneof![3 => Just(None), 4 => (1..=64u64).prop_map(move |k| Some(sm / 4 * k)), 1 => logu(45).prop_map(Some)];
-	let hop = (any::<u16>(), prop::bool::weighted(0.2), base_fee(), ppm_fee(), cltv_delta(), min, max)
-		.prop_map(|(src, public, base, ppm, cltv, min, max)| HintHop { src, public, base, ppm, cltv, min, max });
+	let hop = (any::<u16>(), prop::bool::weighted(0.2), base_fee(), ppm_fee(), cltv_delta(), min, max, prop::option::weighted(0.2, any::<u16>()))
+		.prop_map(|(src, public, base, ppm, cltv, min, max, own)| HintHop { src, public, base, ppm, cltv, min, max, own });
 	vec(hop, 1..=3).sboxed()
 }
 
@@ -623,6 +628,8 @@ fn snapshot(g: &GraphSpec, graph: &NetworkGraph<NullLogger>) -> (BTreeMap<u64, M
 
 struct MFirst {
 	scid: u64,
+	/// the channel's real short_channel_id (differs from `scid` when an outbound alias is set)
+	real: u64,
 	peer: NodeId,
 	limit: u64,
 	min: u64,
@@ -742,6 +749,8 @@ fn resolve<'a>(g: &GraphSpec, ends: &[(usize, usize)], chans: &'a BTreeMap<u64, 
 	// first hops
 	let mut mfirst = None;
 	let mut lfirst = None;
+	// (peer index, real short_channel_id) per supplied first hop
+	let mut first_k: Vec<(usize, u64)> = vec![];
 	if let Some(fhs) = &q.first_hops {
 		let mut mv = vec![];
 		let mut lv = vec![];
@@ -759,7 +768,7 @@ fn resolve<'a>(g: &GraphSpec, ends: &[(usize, usize)], chans: &'a BTreeMap<u64, 
 				// an announced channel between payer and peer, if any
 				if let Some((ci, _)) = ends.iter().enumerate().find(|(ci, (a, b))| ((*a, *b) == (payer_k, peer_k) || (*a, *b) == (peer_k, payer_k)) && chans.contains_key(&(SCID_PUB + *ci as u64))) {
 					let s = SCID_PUB + ci as u64;
-					if !mv.iter().any(|m: &MFirst| m.scid == s) {
+					if !mv.iter().any(|m: &MFirst| m.scid == s || m.real == s) {
 						scid = s;
 						announced = true;
 					}
@@ -769,7 +778,8 @@ fn resolve<'a>(g: &GraphSpec, ends: &[(usize, usize)], chans: &'a BTreeMap<u64, 
 			let limit = fh.limit.min(MAX_VALUE_MSAT);
 			lv.push(channel_details(Some(scid), alias, pk(peer_k), limit, fh.min, announced));
 			// documented: routes use `outbound_scid_alias` if set, otherwise `short_channel_id`
-			mv.push(MFirst { scid: alias.unwrap_or(scid), peer: nid(peer_k), limit, min: fh.min });
+			mv.push(MFirst { scid: alias.unwrap_or(scid), real: scid, peer: nid(peer_k), limit, min: fh.min });
+			first_k.push((peer_k, scid));
 			limits.push(limit);
 			scids.push(alias.unwrap_or(scid));
 		}
@@ -788,13 +798,29 @@ fn resolve<'a>(g: &GraphSpec, ends: &[(usize, usize)], chans: &'a BTreeMap<u64, 
 				// paying oneself is refused up front; spend the query on something else
 				payee_k = (payee_k + 1) % n;
 			}
+			// hints that describe one of the payer's own first-hop channels: a one-hop hint of that kind makes that
+			// first hop's peer the payee
+			let own_of = |hint: &Vec<HintHop>| -> Option<(usize, u64)> { hint.first().and_then(|h0| h0.own).and_then(|i| if first_k.is_empty() { None } else { Some(first_k[pick(i, first_k.len())]) }) };
+			if let Some((peer_k, _)) = hints.iter().take(3).filter(|h| h.len() == 1).find_map(|h| own_of(h)) {
+				payee_k = peer_k;
+			}
 			let not_payee = |k: usize| if k == payee_k { (k + 1) % n } else { k };
 			let mut lhints = vec![];
 			for (h, hint) in hints.iter().enumerate().take(3) {
 				let mut lh = vec![];
-				let srcs: Vec<usize> = hint.iter().enumerate().map(|(k, hop)| if k == 0 || hop.public { not_payee(pick(hop.src, n)) } else { K_HINT + 4 * h + k }).collect();
+				let mut srcs: Vec<usize> = hint.iter().enumerate().map(|(k, hop)| if k == 0 || hop.public { not_payee(pick(hop.src, n)) } else { K_HINT + 4 * h + k }).collect();
+				let own = own_of(hint).filter(|(peer_k, _)| if hint.len().min(3) == 1 { *peer_k == payee_k } else { *peer_k != payee_k });
+				if let Some((peer_k, _)) = own {
+					srcs[0] = payer_k;
+					if srcs.len() > 1 {
+						srcs[1] = peer_k;
+					}
+				}
 				for (k, hop) in hint.iter().enumerate().take(3) {
-					let scid = SCID_HINT + 16 * h as u64 + k as u64;
+					let scid = match own {
+						Some((_, real)) if k == 0 => real,
+						_ => SCID_HINT + 16 * h as u64 + k as u64,
+					};
 					let dst = if k + 1 < hint.len().min(3) { srcs[k + 1] } else { payee_k };
 					lh.push(RouteHintHop {
 						src_node_id: pk(srcs[k]),
@@ -1018,7 +1044,9 @@ fn resolve_edge(w: &World, k: usize, prev: &NodeId, tgt: &NodeId, scid: u64) -> 
 		if let Some(first) = &w.first {
 			// "If [first_hops] is filled in, the view of these channels from network_graph will be
 			// ignored, and only those in first_hops will be used."
-			if let Some((i, fh)) = first.iter().enumerate().find(|(_, fh)| fh.scid == scid && fh.peer == *tgt) {
+			// a supplied first hop is that channel under either of its names (outbound alias or real scid): a hint
+			// that describes it does not create a second channel with limits of its own
+			if let Some((i, fh)) = first.iter().enumerate().find(|(_, fh)| fh.scid == scid && fh.peer == *tgt).or_else(|| first.iter().enumerate().find(|(_, fh)| fh.real == scid && fh.peer == *tgt)) {
 				return Ok(Edge { key: EdgeKey::First(i), pol: Pol { min: fh.min, max: fh.limit, ..FREE }, joint: fh.limit });
 			}
 			// a route hint that names the payer itself as the source of a private channel
@@ -1401,6 +1429,10 @@ fn slack_reference(w: &World, sat_pow: u8) -> Option<(usize, String)> {
 		}
 	}
 	for h in &w.hints {
+		// a hint that describes one of the payer's supplied first hops is that channel, not a further one
+		if h.src == w.payer && w.first.as_ref().map(|f| f.iter().any(|fh| fh.scid == h.scid || fh.real == h.scid)).unwrap_or(false) {
+			continue;
+		}
 		adj.entry(h.src).or_default().push(SEdge { id: h.scid, to: Some(h.dst), pol: h.pol, limit: h.pol.max });
 		world.push((h.pol, None, false));
 	}
